@@ -25,7 +25,8 @@ RULE = (
     "{H0,H1,S0,S1,CX01}); thorough = all, quick = the elements whose blake2(seed,index) is 0 mod 8; plus drawn pairs "
     "for tableau composition. R: Hypothesis draws a register (1-6 wires, permuted qubit names), a basis initial state "
     "and a list of operations from every gate family that claims has_stabilizer_effect at the drawn parameters, "
-    "interleaved with (multi-qubit, inverted) measurements and resets, plus a PRNG script; the operations are applied "
+    "interleaved with (multi-qubit, inverted) measurements and resets (measurement-heavy histories: measure, keep computing on "
+    "the measured and neighbouring qubits, measure again, often every qubit at the end), plus a PRNG script; the operations are applied "
     "with cirq.act_on to a CliffordTableauSimulationState and a StabilizerChFormSimulationState and followed by a dense "
     "reference along the observed outcomes (step-wise), and whole outcome distributions / final states of act_on, "
     "CliffordSimulator.simulate/run and StabilizerSampler are enumerated exactly through the scripted PRNG. "
@@ -425,7 +426,9 @@ def _pair_words():
 
 
 @st.composite
-def _rcase(draw, max_n=6, max_ops=16, max_meas=4, max_reset=2):
+def _rcase(draw, max_n=6, max_ops=16, max_meas=4, max_reset=2, heavy=False):
+    """heavy: measurement-heavy histories -- measure, keep computing on the measured and neighbouring qubits, measure
+    again, and (often) measure every qubit at the end."""
     n = draw(st.sampled_from([x for x in [1, 2, 2, 3, 3, 4, 4, 5, 5, 6, 6] if x <= max_n]))
     names = list(draw(st.permutations(list(range(n + 2)))))[:n]
     init = draw(st.one_of(st.just(0), st.integers(0, 2 ** n - 1)))
@@ -441,9 +444,22 @@ def _rcase(draw, max_n=6, max_ops=16, max_meas=4, max_reset=2):
     for i in range(nops):
         c = draw(st.integers(0, 19))
         late = i >= nops // 3
-        if c == 0 and late and nmeas < max_meas:
+        if (c == 0 or (heavy and c == 19)) and late and nmeas < max_meas:
             ops.append(meas())
             nmeas += len(ops[-1]["w"])
+            if heavy and n >= 2 and nmeas < max_meas and draw(st.integers(0, 2)) == 0:
+                # keep computing on a measured qubit and a neighbour, then measure them again
+                a = ops[-1]["w"][0]
+                b = draw(st.integers(0, n - 2))
+                b = b if b < a else b + 1
+                for _ in range(draw(st.integers(1, 3))):
+                    ops.append(draw(st.sampled_from([
+                        {"k": "HP", "e": 1.0, "s": 0.0, "w": [a]}, {"k": "HP", "e": 1.0, "s": 0.0, "w": [b]},
+                        {"k": "CX", "e": 1.0, "s": 0.0, "w": [b, a]}, {"k": "CX", "e": 1.0, "s": 0.0, "w": [a, b]},
+                        {"k": "CGNAMED", "name": "CNOT", "w": [b, a]}, {"k": "YP", "e": 0.5, "s": 0.0, "w": [a]},
+                        {"k": "CZ", "e": 1.0, "s": 0.0, "w": [a, b]}, {"k": "ZP", "e": 0.5, "s": 0.0, "w": [b]}])))
+                ops.append({"k": "M", "w": [a, b][: max(1, min(2, max_meas - nmeas))], "inv": []})
+                nmeas += len(ops[-1]["w"])
         elif c == 1 and late and nres < max_reset:
             ops.append({"k": "R", "w": [draw(st.integers(0, n - 1))], "chan": draw(st.booleans())})
             nres += 1
@@ -457,7 +473,11 @@ def _rcase(draw, max_n=6, max_ops=16, max_meas=4, max_reset=2):
             ops.append(draw(CO.unitary_op(n, kinds=["ZP", "YP", "XP", "SQC", "PS", "DPS"])))
         else:
             ops.append(draw(CO.unitary_op(n)))
-    if nmeas < max_meas and draw(st.integers(0, 4)) != 0:
+    if heavy and draw(st.booleans()):
+        order = list(draw(st.permutations(list(range(n)))))
+        for k in range(0, n, 3):
+            ops.append({"k": "M", "w": order[k:k + 3], "inv": []})
+    elif nmeas < max_meas and draw(st.integers(0, 4)) != 0:
         ops.append(meas())
     return {"n": n, "names": names, "init": init, "ops": ops, "script": draw(st.lists(st.integers(0, 1), max_size=16)),
             "split": draw(st.booleans())}
@@ -752,6 +772,48 @@ def _tableau_rho(t, n):
     return rho
 
 
+def _check_rows(t, what):
+    sl, dl = [_dps_label(x) for x in t.stabilizers()], [_dps_label(x) for x in t.destabilizers()]
+    if not CG.is_symplectic_rows(dl + sl):
+        raise Violation(f"{what}: stabilizer/destabilizer rows violate the canonical commutation relations")
+
+
+def oracle_tab_dist(r):
+    """Measurement-heavy histories on the tableau route only (one coin per random outcome -> few branches):
+    exact record distribution and final states of act_on(CliffordTableauSimulationState) and StabilizerSampler."""
+    c = _build_case(r)
+    n = c.n
+    tol = TOL * (2 + len(c.items))
+    ref = _ref_distribution(c, c.init)
+    has_meas = any(it[0] == "m" for it in c.items)
+    nm = sum(len(it[3]) for it in c.items if it[0] == "m")
+
+    def run(prng):
+        s = _make_state("tab", c, prng)
+        for it in c.items:
+            cirq.act_on(it[1], s)
+        return s
+
+    try:
+        got = []
+        for p, script, s, prng in enumerate_branches(run, max_branches=512):
+            got.append((p, _rec_key(s.log_of_measurement_results), _tableau_rho(s.tableau, n)))
+            _check_rows(s.tableau, "act_on(CliffordTableauSimulationState) final tableau")
+        _compare_distribution("act_on(CliffordTableauSimulationState)", got, ref, tol)
+        if has_meas:
+            ref0 = ref if c.init == 0 else _ref_distribution(c, 0)
+            got2 = [(p, _rec_key({k: v[0] for k, v in res.measurements.items()}), None)
+                    for p, script, res, prng in enumerate_branches(
+                        lambda prng: cirq.StabilizerSampler(seed=prng).run(c.circuit, repetitions=1), max_branches=512)]
+            _compare_distribution("StabilizerSampler.run(repetitions=1)", got2, ref0, tol, states=False)
+    except OverflowError:
+        raise Reject("more outcome branches than the enumeration budget")
+    kinds = {it[4].get("k") for it in c.items if it[0] == "u"}
+    remeasured = len({a for it in c.items if it[0] == "m" for a in it[3]}) < nm
+    return {"nontrivial": bool(len(ref) >= 2 and remeasured), "n": n, "measured_qubits": min(nm, 9), "remeasured": remeasured,
+            "n_outcomes": min(len(ref), 17), "tab_branches": min(len(got), 33), "has_clifford_gate_op": bool(kinds & {"CG2", "CGN", "CGNAMED"})}
+
+
 def oracle_dist(r):
     c = _build_case(r)
     n = c.n
@@ -775,6 +837,7 @@ def oracle_dist(r):
         got = []
         for p, script, s, prng in enumerate_branches(run_acton("tab"), max_branches=MAXB):
             got.append((p, _rec_key(s.log_of_measurement_results), _tableau_rho(s.tableau, n)))
+            _check_rows(s.tableau, "act_on(CliffordTableauSimulationState) final tableau")
         _compare_distribution("act_on(CliffordTableauSimulationState)", got, ref, tol)
         lab["tab_branches"] = min(len(got), 17)
         got = []
@@ -946,7 +1009,9 @@ SUBCHECKS = [
     SubCheck("e2_elements", None, oracle_e2, enumerate=_e2_recipes, exhaustive_in=("thorough",), shards_quick=8, shards_thorough=16, time_quick=600.0),
     SubCheck("e2_then_pairs", st.fixed_dictionaries({"a": _pair_words(), "b": _pair_words()}), oracle_e2_pair,
              quick=1500, thorough=50000, shards_quick=2, shards_thorough=16),
-    SubCheck("r_trajectory", _rcase(), oracle_traj, quick=1600, thorough=60000, shards_quick=8, shards_thorough=16, time_quick=600.0,
+    SubCheck("r_tableau_heavy", _rcase(max_n=5, max_ops=12, max_meas=6, max_reset=1, heavy=True), oracle_tab_dist, quick=700, thorough=25000,
+             shards_quick=8, shards_thorough=16, time_quick=600.0, essential={"remeasured": 0.3}),
+    SubCheck("r_trajectory", _rcase(max_meas=7, heavy=True), oracle_traj, quick=1600, thorough=60000, shards_quick=8, shards_thorough=16, time_quick=600.0,
              essential={"entangled_at_measure": 0.1, "random_meas": 0.2}),
     SubCheck("claims", _claims_case(), oracle_claims, quick=2500, thorough=60000, shards_quick=4, shards_thorough=16,
              essential={"claims": 0.15}),
